@@ -202,7 +202,10 @@ impl Shared {
         mut req: Option<Streaming<M>>,
     ) -> Pin<Box<dyn Stream<Item = Result<M, Status>> + Send>> {
         let me = self.clone();
-        Box::pin(async_stream::stream! {
+        // scripts with an even number of messages (0 included) answer with a stream that knows its exact length,
+        // like `tokio_stream::iter(vec![..])`; the others give no hint, like a channel-backed stream
+        let exact = if sc.msgs.len() % 2 == 0 { Some(sc.msgs.len() + sc.outcome.is_some() as usize) } else { None };
+        let inner: Pin<Box<dyn Stream<Item = Result<M, Status>> + Send>> = Box::pin(async_stream::stream! {
             if sc.drain_first {
                 if let Some(r) = req.as_mut() { me.drain(idx, r).await; }
             }
@@ -224,7 +227,32 @@ impl Shared {
             if let Some(st) = &sc.outcome {
                 yield Err(st.status());
             }
-        })
+        });
+        Box::pin(HintedStream { inner, left: exact })
+    }
+}
+
+/// A response stream with an optional exact `size_hint`.
+struct HintedStream<M> {
+    inner: Pin<Box<dyn Stream<Item = Result<M, Status>> + Send>>,
+    left: Option<usize>,
+}
+impl<M> Stream for HintedStream<M> {
+    type Item = Result<M, Status>;
+    fn poll_next(mut self: Pin<&mut Self>, cx: &mut std::task::Context<'_>) -> std::task::Poll<Option<Self::Item>> {
+        let r = self.inner.as_mut().poll_next(cx);
+        if let std::task::Poll::Ready(Some(_)) = &r {
+            if let Some(l) = self.left.as_mut() {
+                *l = l.saturating_sub(1);
+            }
+        }
+        r
+    }
+    fn size_hint(&self) -> (usize, Option<usize>) {
+        match self.left {
+            Some(l) => (l, Some(l)),
+            None => (0, None),
+        }
     }
 }
 
